@@ -303,6 +303,44 @@ static rc::Gen<std::vector<uint64_t>> gen_row_case(std::vector<int> rows)
     });
 }
 
+// ---- planar <-> interleaved copies (copy_batch, copy_avx, copy_avx512) -------------------------
+// payload: [which (0 copy_batch, 1 copy_avx, 2 copy_avx512), placement, 24 values]
+static bool body_copies(const Case &c, Ctx &ctx)
+{
+    int which = (int)(c.v[0] % 3);
+#ifndef __AVX512__
+    if (which == 2) which = 1;
+#endif
+    const int L = which == 2 ? 8 : 4, n = 3 * L; const int place = (int)(c.v[1] % 3);
+    static const char *WN[] = {"copy_batch(Element *dst, const Element *src)", "copy_avx(Element *dst, __m256i a0_, __m256i a1_, __m256i a2_)", "copy_avx512(Element *dst, __m512i a0_, __m512i a1_, __m512i a2_)"};
+    ctx.cls(WN[which]);
+    ctx.nt(place == 0 ? "copies:destination-ends-at-guard-page" : "copies:destination-inside-sentinel-arena");
+    const uint64_t *val = &c.v[2];
+    // destination: exactly n words ending at an inaccessible page, or n words inside an arena of sentinels
+    guard::Buf gd; std::vector<E> arena; E *dst;
+    const int PADW = 16;
+    if (place == 0) { gd.alloc(n * sizeof(E)); dst = gd.as<E>(); for (int i = 0; i < n; i++) dst[i].fe = SENT + i; }
+    else { arena.resize(n + 2 * PADW); for (size_t i = 0; i < arena.size(); i++) arena[i].fe = SENT + i; dst = arena.data() + PADW; }
+    uint64_t want[24];
+    if (which == 0) {
+        guard::Buf gs(n * sizeof(E)); E *src = gs.as<E>(); // source: exactly n words, ending at a guard page
+        for (int i = 0; i < n; i++) { src[i].fe = val[i]; want[i] = val[i] % PR; }
+        Goldilocks3::copy_batch(dst, src);
+        for (int i = 0; i < n; i++) if (src[i].fe != val[i]) return ctx.fail(std::string(WN[which]) + ": modified its source");
+    } else {
+        alignas(64) uint64_t pl[3][8];
+        for (int i = 0; i < 3; i++) for (int k = 0; k < L; k++) { pl[i][k] = val[L * i + k]; want[3 * k + i] = val[L * i + k] % PR; }
+        if (which == 1) Goldilocks3::copy_avx(dst, _mm256_load_si256((__m256i *)pl[0]), _mm256_load_si256((__m256i *)pl[1]), _mm256_load_si256((__m256i *)pl[2]));
+#ifdef __AVX512__
+        else Goldilocks3::copy_avx512(dst, _mm512_load_si512(pl[0]), _mm512_load_si512(pl[1]), _mm512_load_si512(pl[2]));
+#endif
+    }
+    for (int i = 0; i < n; i++) if (dst[i].fe % PR != want[i]) return ctx.fail(std::string(WN[which]) + ": word " + std::to_string(i) + " of the destination is " + hx(dst[i].fe) + ", want " + hx(want[i]));
+    if (place != 0) for (size_t i = 0; i < arena.size(); i++) if ((i < (size_t)PADW || i >= (size_t)(PADW + n)) && arena[i].fe != SENT + i) return ctx.fail(std::string(WN[which]) + ": wrote outside its " + std::to_string(n) + "-word destination");
+    return true;
+}
+static std::string desc_copies(const Case &c) { std::string s = c.prop + " which=" + std::to_string(c.v[0] % 3) + " placement=" + std::to_string(c.v[1] % 3) + " values=["; for (int i = 0; i < 6; i++) s += (i ? "," : "") + hx(c.v[2 + i]); return s + ",...]"; }
+
 int main(int argc, char **argv)
 {
     std::vector<pbt::PropDef> props;
@@ -313,5 +351,7 @@ int main(int argc, char **argv)
         fam["c16." + f].push_back(i);
     }
     for (auto &kv : fam) { auto rows = kv.second; props.push_back({kv.first, [rows] { return gen_row_case(rows); }, body_row, (double)rows.size(), false, desc_row, 100}); }
+    props.push_back({"c16.copies", [] { return rc::gen::apply([](int w, int pl, std::vector<uint64_t> v) { std::vector<uint64_t> o{(uint64_t)w, (uint64_t)pl}; o.insert(o.end(), v.begin(), v.end()); return o; },
+                                        g::irange(0, 2), g::irange(0, 2), g::fe_vec(24)); }, body_copies, 3, false, desc_copies, 100});
     return pbt::harness_main(argc, argv, "h_cubic_batch", props);
 }
